@@ -79,7 +79,12 @@ def runOps (kv : KV) (nops : Nat) (F0 : Fact) : Option (MErr String) := do
         F := F'
         out := out ++ s!"r{t}=ok " ++ fmtFactors F (toString t) ++ " "
       | .error (.err k) =>
-        return (.ok (out ++ s!"r{t}=err:{k}"))
+        -- the failed call leaves no state in the model: refactor once more on the same object
+        let again := match Qdldl.refactor F with
+          | .ok _ => "ok"
+          | .error (.err k2) => s!"err:{k2}"
+          | .error _ => "panic"
+        return (.ok (out ++ s!"r{t}=err:{k} again{t}={again}"))
       | .error e => return (.error e)
     | "solve" =>
       let b ← kv.floats s!"b{t}"
